@@ -55,7 +55,7 @@ func gBool(b bool) string {
 	}
 	return "false"
 }
-func gZ(z any) string { return fmt.Sprintf("(%v)%%Z", z) }
+func gZ(z any) string   { return fmt.Sprintf("(%v)%%Z", z) }
 func gNat(n int) string { return fmt.Sprintf("%d%%nat", n) }
 func gList(items []string) string {
 	if len(items) == 0 {
@@ -79,14 +79,14 @@ func gOpt(present bool, v string) string {
 func gPair(a, b string) string { return "(" + a + ", " + b + ")" }
 
 // observation constructors (Gallina terms of type obs)
-func oS(s string) string          { return "(OS " + gStr(s) + ")" }
-func oZ(z any) string             { return "(OZ " + gZ(z) + ")" }
-func oB(b bool) string            { return "(OB " + gBool(b) + ")" }
-func oL(items []string) string    { return "(OL " + gList(items) + ")" }
+func oS(s string) string                { return "(OS " + gStr(s) + ")" }
+func oZ(z any) string                   { return "(OZ " + gZ(z) + ")" }
+func oB(b bool) string                  { return "(OB " + gBool(b) + ")" }
+func oL(items []string) string          { return "(OL " + gList(items) + ")" }
 func oC(tag string, a ...string) string { return "(OC " + gStr(tag) + " " + gList(a) + ")" }
-func oOk(a string) string         { return oC("ok", a) }
-func oErr() string                { return oC("err") }
-func oPanic() string              { return oC("panic") }
+func oOk(a string) string               { return oC("ok", a) }
+func oErr() string                      { return oC("err") }
+func oPanic() string                    { return oC("panic") }
 
 // ---- case collection ----
 
@@ -117,7 +117,7 @@ type ctx struct {
 }
 
 func (c *ctx) thorough() bool { return c.tier == "thorough" }
-func (c *ctx) count(k string)  { c.counts[k]++ }
+func (c *ctx) count(k string) { c.counts[k]++ }
 
 // add records one correspondence case.  model and obs are Gallina terms of
 // type obs; propFail is "" when the direct oracle is satisfied.
